@@ -344,7 +344,11 @@ static void element_level(const std::vector<Elem>& E, std::size_t fixed, std::ve
     const std::size_t n = E.size();
     std::vector<typename SA::El> ea;
     std::vector<typename SB::El> eb;
-    constexpr bool copyable = LS::ALL_COPYABLE;
+#ifndef HAVE_ELEM_COPY
+#define HAVE_ELEM_COPY 1
+#endif
+    // value_type operands need a copyable element type (dropped by the driver if the library does not compile that)
+    constexpr bool copyable = LS::ALL_COPYABLE && HAVE_ELEM_COPY;
     if constexpr (copyable)
     {
         L().junk = junk_a;
